@@ -39,7 +39,7 @@ def gen_binary(rng, buffer, malformed=False):
 
 
 def gen_case(rng, malformed=None):
-    buffer = rng.choice([8, 8, 12, 16, 16, 32, 64, 256])
+    buffer = rng.choice([8, 12, 16, 16, 32, 64, 64, 128, 130, 254, 255, 256, 256])
     if rng.random() < 0.06:                       # a whole 4 x 4 block: the regions merge one level up
         chips = [(x, y) for x in range(4) for y in range(4)]
         if rng.random() < 0.5:
@@ -84,7 +84,8 @@ def gen_case(rng, malformed=None):
                           wait=rng.choice([None, True, True, False]),
                           n_tries=rng.choice([None, None, 0, 1, 2, 3]),
                           use_count=rng.choice([None, True, False, False]),
-                          form="two" if (len(amap) == 1 and rng.random() < 0.3) else "one"))
+                          form="two" if (len(amap) == 1 and rng.random() < 0.3) else "one",
+                          container=rng.choice(["set", "set", "frozenset", "tuple", "list", "range"])))
     if nbin > 1 and rng.random() < 0.15:          # two paths with equal content
         binaries[1] = list(binaries[0])
     for ci in range(1, len(calls)):               # a file rebuilt between two calls on the same controller
@@ -135,8 +136,11 @@ def gen_case(rng, malformed=None):
             buffer = rng.choice([6, 10])
         elif kind == "negtries":
             call["n_tries"] = -1
+    # sv->vcpu_base differs from chip to chip (distinct values, some not word aligned)
+    vbases = rng.sample([0xe5007000 + 0x900 * i + rng.choice([0, 0, 0, 1, 2]) for i in range(40)], len(chips))
+    vcpus = [[c[0], c[1], v] for c, v in zip(chips, vbases)] if rng.random() < 0.8 else []
     machine = dict(buffer=buffer, base=rng.choice([0x60240000, 0x60000000, 0x67800010]), vcpu=0xe5007000,
-                   chips=[[c[0], c[1], cores[c]] for c in chips], sched=sched)
+                   vcpus=vcpus, chips=[[c[0], c[1], cores[c]] for c in chips], sched=sched)
     return dict(machine=machine, binaries=binaries, calls=calls, kind=kind)
 
 
@@ -227,17 +231,18 @@ def versions(c):
 
 def rewrite_history():
     """Two loads on one controller naming the same path, the file rebuilt (other size and content) in between;
-    and a second path whose content equals the first one's."""
+    a second path whose content equals the first one's; chip (1, 0) has its own sv->vcpu_base; the cores are
+    given as a frozenset, a tuple and a list."""
     chips = [[0, 0, [list(IDLE) for _ in range(18)]], [1, 0, [list(IDLE) for _ in range(18)]]]
     b0 = [i % 256 for i in range(32)]
-    return dict(machine=dict(buffer=16, base=0x60240000, vcpu=0xe5007000, chips=chips, sched=[]),
+    return dict(machine=dict(buffer=16, base=0x60240000, vcpu=0xe5007000, vcpus=[[1, 0, 0xe5009002]], chips=chips, sched=[]),
                 binaries=[b0, list(b0)],
                 calls=[dict(fn="load", map=[[0, [[0, 0, [1]]]]], app_id=30, wait=None, n_tries=None,
-                            use_count=None, form="one"),
+                            use_count=None, form="one", container="frozenset"),
                        dict(fn="load", map=[[0, [[1, 0, [2]]]], [1, [[1, 0, [3]]]]], app_id=31, wait=None, n_tries=None,
-                            use_count=False, form="one", rewrite=[[0, [(5 * i + 1) % 256 for i in range(20)]]]),
+                            use_count=False, form="one", container="tuple", rewrite=[[0, [(5 * i + 1) % 256 for i in range(20)]]]),
                        dict(fn="load", map=[[0, [[0, 0, [4]]]]], app_id=32, wait=True, n_tries=None,
-                            use_count=None, form="two", rewrite=[[0, [(7 * i + 3) % 256 for i in range(20)]]])],
+                            use_count=None, form="two", container="list", rewrite=[[0, [(7 * i + 3) % 256 for i in range(20)]]])],
                 kind="valid")
 
 
@@ -245,7 +250,7 @@ def rewrite_history():
 SV_VCPU_BASE_ADDR = 0xf5007f00 + 0xcc
 
 
-def canon_trace(trace, call_map, vcpu):
+def canon_trace(trace, call_map, machine):
     """Sort the per-core state reads (pairs: read sv.vcpu_base, read vcpu.cpu_state) of one entry
     `(x, y): cores` of the map by core number: CPython's iteration order over a set of core numbers is not part
     of the model.  The check phase of an attempt walks the entries of the (still unloaded) map in map order,
@@ -253,7 +258,8 @@ def canon_trace(trace, call_map, vcpu):
     prefix of distinct cores it names."""
     entries = [([x, y], set(ps)) for b, ts in call_map for x, y, ps in ts]
     out, i, ptr = [], 0, 0
-    core = lambda e: (e[4] - vcpu - 46) // 128
+    vt = {(x, y): v for x, y, v in machine.get("vcpus", [])}
+    core = lambda e: (e[4] - vt.get((e[0], e[1]), machine["vcpu"]) - 46) // 128
     while i < len(trace):
         e = trace[i]
         run = []
@@ -323,7 +329,9 @@ class Lits(object):
         chips = vlist("((%s, %s), mkChip %s None)" % (zlit(x), zlit(y), vlist(self.core(c) for c in cs))
                       for x, y, cs in m["chips"])
         sched = vlist(vlist("(%s, %s)" % (zlit(c[0]), zlit(c[1])) for c in miss) for miss in m["sched"])
-        return "mkMachine %s %s %s %s %s []" % (zlit(m["buffer"]), zlit(m["base"]), zlit(m["vcpu"]), chips, sched)
+        vt = vlist("((%s, %s), %s)" % (zlit(x), zlit(y), zlit(v)) for x, y, v in m.get("vcpus", []))
+        return "mkMachine %s %s (vcpu_table %s %s) %s %s []" % (zlit(m["buffer"]), zlit(m["base"]), vt, zlit(m["vcpu"]),
+                                                                chips, sched)
 
     def entry(self, e):
         x, y, p, cmd, a1, a2, a3, data, r1, rdata = e
@@ -344,8 +352,7 @@ class Lits(object):
     def vernac(self, outs):
         """Definitions of the history and of the implementation's side, then one Eval."""
         c, t = self.c, self.tag
-        vcpu = c["machine"]["vcpu"]
-        impl = vlist("(%s, %s)" % (vlist(self.entry(e) for e in canon_trace(o["trace"], k["map"], vcpu)),
+        impl = vlist("(%s, %s)" % (vlist(self.entry(e) for e in canon_trace(o["trace"], k["map"], c["machine"])),
                                    self.state(o["state"])) for k, o in zip(c["calls"], outs))
         return ("Definition bins%s : list (list Z) := %s.\n"
                 "Definition B%s (k : nat) : list Z := nth k bins%s [].\n"
@@ -414,7 +421,7 @@ def in_domain(c, k, bins=None):
     bins = c["binaries"] if bins is None else bins
     m = c["machine"]
     chips = {(x, y) for x, y, _ in m["chips"]}
-    if m["buffer"] % 4 or not 4 <= m["buffer"] <= 1024 or not 0 <= k["app_id"] <= 255:
+    if not 4 <= m["buffer"] <= 1024 or not 0 <= k["app_id"] <= 255:
         return False
     if k.get("n_tries") is not None and k["n_tries"] < 0:      # "number of attempts to make": no attempt at all
         return False
@@ -423,6 +430,8 @@ def in_domain(c, k, bins=None):
         data = bins[b]
         if len(data) % 4 or (len(data) + m["buffer"] - 1) // m["buffer"] > 255:
             return False
+        if 0 < len(data) % m["buffer"] < 4:      # only with a buffer that is not whole words: a last block without
+            return False                          # a whole word has word count -1 and cannot be packed (struct.error)
         for x, y, ps in ts:
             if (x, y) not in chips:
                 return False
@@ -491,7 +500,8 @@ def fill_wellformed(fill, data, buffer, base):
             return "block %d is numbered %d" % (i, block)
         if len(e[7]) > buffer:
             return "block %d has %d bytes, the buffer holds %d" % (i, len(e[7]), buffer)
-        if 4 * words != len(e[7]):
+        if buffer % 4 == 0 and 4 * words != len(e[7]):
+            # (a buffer that is not a whole number of words cannot be announced exactly: not asked there)
             return "block %d announces %d words for %d bytes" % (i, words, len(e[7]))
         if e[6] != addr:
             return "block %d is loaded at %#x, the image continues at %#x" % (i, e[6], addr)
@@ -650,7 +660,8 @@ def run(chk, args):
                     "of iteration over a set of core numbers only permutes the state reads within one chip "
                     "(sorted before comparing)"]
     chk.assumptions += ["binaries are multiples of 4 bytes with at most 255 blocks; the buffer size reported by "
-                        "sver is a multiple of 4 in 4..1024; app ids are bytes; requested chips exist; every "
+                        "sver is in 4..1024 (the theorems ask for a multiple of 4; for other sizes the code announces "
+                        "len // 4 words per block, the oracle then does not ask the word count to match); app ids are bytes; requested chips exist; every "
                         "core is named for at most one binary; n_tries >= 0 (outside: correspondence only)",
                         "the only faults are chips missing a whole flood fill; reads, signals and counts arrive; "
                         "sockets and the clock are replaced by the simulator (no wall-clock races)",
@@ -766,7 +777,7 @@ def run(chk, args):
         except RuntimeError as e:
             chk.oblige("correspondence:model-evaluates", False, str(e))
     chk.coverage["rule"] = ("fault histories: machine of 1-6 chips of a pool spanning several regions (6%% a whole 4x4 "
-                            "block), buffer in {8,12,16,32,64,256}, 1-3 binaries of k*buffer-4/+0/+4 bytes, cores left "
+                            "block), buffer in {8,12,16,32,64,128,130,254,255,256}, sv->vcpu_base differing from chip to chip (80%%), core collections given as set / frozenset / tuple / list / range, 1-3 binaries of k*buffer-4/+0/+4 bytes, cores left "
                             "waiting/running by earlier sessions (45%%), per-fill miss sets with rate in {0,.15,.3,.5,.8,1}, "
                             "1-3 calls on one controller (93%% load_application, both modes, wait, n_tries 0-3, one- and "
                             "two-argument forms); every 8th history malformed (%s); preceded by the K3 and the "
